@@ -228,6 +228,10 @@ func C01(tier string) int {
 	ops2 = append(ops2, attBatches(0, 1, false)...)
 	ops2 = append(ops2, attBatches(1, 0, false)...)
 	ops2 = withWriteFaults(ops2)
+	for k := 0; k < 2; k++ {
+		// Asked of a second instance started on the same storage directory while the first is running.
+		ops2 = append(ops2, SOp{Kind: "twin-att", Ents: []Ent{{Key: k, S: 0, T: 1, Root: 2}}}, SOp{Kind: "twin-att", Ents: []Ent{{Key: k, S: 0, T: 2, Root: 2}}})
+	}
 	for _, o := range attSingles(0, []uint64{0, 1, 2}, false) {
 		o.Fault = "write"
 		ops2 = append(ops2, o)
